@@ -52,6 +52,7 @@ UTC = _dt.UTC
 REAL = _dt.datetime
 EPOCH = REAL(1980, 1, 1, tzinfo=UTC)
 RECORDER = DS._chron
+DS.JOURNAL[0] = False   # the journal of this driver is the one under test
 
 
 class Frozen(REAL):
